@@ -1402,8 +1402,8 @@ fn derive_field_list_shape(
         let shape = if let Some(c) = constraint {
             let constraint_shape = c.derive_shape(symbol_table);
             let narrowed = value_shape.narrow(&constraint_shape, symbol_table);
-            if let Shape::TypeErr(_, _) = &narrowed {
-                return narrowed;
+            if let Shape::TypeErr(at, msg) = narrowed {
+                return Shape::TypeErr(mismatch_pos(&constraint_shape, at, c.pos()), msg);
             }
             narrowed
         } else {
@@ -1768,10 +1768,12 @@ impl Visitor for Checker {
                     let constraint_shape = constraint_expr.derive_shape(&mut self.symbol_table);
                     let narrowed = shape.narrow(&constraint_shape, &mut self.symbol_table);
                     if let Shape::TypeErr(pos, msg) = &narrowed {
+                        // A named constraint carries the position it was
+                        // defined at. The fault is this binding.
                         self.err_stack.push(BuildError::with_pos(
                             msg.clone(),
                             ErrorType::TypeFail,
-                            pos.clone(),
+                            mismatch_pos(&constraint_shape, pos.clone(), constraint_expr.pos()),
                         ));
                         return;
                     }
